@@ -134,12 +134,14 @@ def explicit_p2sh_sessions(tier):
     has the scriptPubKey's three operations, the '<<< P2SH script >>>' header and the redeem script's operations"""
     out = []
     cases = [("51", []), ("527551", []), ("935387", ["01", "02"]), ("76a97c87", ["aa"]), ("00", [])]
+    # a redeem script above the 10,000-byte script size limit: the hand-over to it fails, and fails again when attempted again
+    cases += [("61" * 10000 + "51", [])]
     if tier == "thorough":
-        cases += [("5152935387", []), ("61" * 20 + "51", []), ("03aabbcc7551", []), ("7551", ["07"])]
+        cases += [("5152935387", []), ("61" * 20 + "51", []), ("03aabbcc7551", []), ("7551", ["07"]), ("61" * 9999 + "51", [])]
     for (redeem, st) in cases:
         spk = "a914" + _hash160(bytes.fromhex(redeem)).hex() + "87"
         stack = list(st) + [redeem]
-        out.append(dict(kind="spend", cls="explicit-p2sh", label="explicit P2SH scriptPubKey, redeem %s, stack %s" % (redeem, ",".join(st) or "-"),
+        out.append(dict(kind="spend", cls="explicit-p2sh", label="explicit P2SH scriptPubKey, redeem %s, stack %s" % (redeem if len(redeem) < 60 else "%s.. (%d bytes)" % (redeem[:16], len(redeem) // 2), ",".join(st) or "-"),
                         argv=["0x" + spk] + ["0x" + x for x in stack],
                         ref=dict(sv=0, flags=F_STANDARD, scripts=[spk, redeem], headers=["", "<<< P2SH script >>>"], explicit_p2sh=True, p2sh=True, commit_steps=0, control="",
                                  stack=stack, valid=None),
@@ -708,25 +710,34 @@ class Session:
                 self.check_marker(prow, k)
                 in_domain = False
                 mk = P.M[min(k, P.T - 1)]
-                expected_fail = (P.fail_at == k) or (P.valid is False and mk["kind"] == "op" and mk["code"] in SIG_CODES) or (P.S[min(k + 1, P.T)] is None)
+                expected_fail = (mk["kind"] == "switch" and self.s["ref"].get("explicit_p2sh") and len(self.s["ref"]["scripts"][1]) > 20000) or (P.fail_at == k) or (P.valid is False and mk["kind"] == "op" and mk["code"] in SIG_CODES) or (P.S[min(k + 1, P.T)] is None)
                 if not expected_fail:
                     self.v("step-differs-from-reference:%s" % self.cls, "step %d (%s) fails with %r; the reference executes it" % (k + 1, self.describe(mk), msg))
+                # the step after a failing one: the marker still designates what failed, so the same micro-step is attempted again - on the
+                # state the tool now shows, which a failing step leaves as it was: it fails again with the same message and the same stack
+                tool_ok = msg2 = got2 = None
+                if i + 2 < len(t.segs) and mk["kind"] != "verdict":   # (the verdict is delivered once: after it the session is over either way)
+                    sseg2, kseg2 = t.segs[i], t.segs[i + 2]
+                    if sseg2 == "":
+                        msg2 = t.next_msg()
+                        tool_ok = False
+                    else:
+                        tool_ok, msg2 = True, None
+                    got2 = parse_stack(kseg2)
+                    self.st["repeated_failing_steps"] = self.st.get("repeated_failing_steps", 0) + 1
+                    if tool_ok or msg2 != msg or got2 != parse_stack(kseg):
+                        self.v("failing-step-not-repeatable:%s:%s" % (self.cls, mk["kind"]),
+                               "step %d (%s) failed with %r; the marker stays on it, but attempted again it %s (stack before %s, after %s)"
+                               % (k + 1, self.describe(mk), msg, "succeeds" if tool_ok else "fails with %r" % msg2, [short(x, 20) for x in (parse_stack(kseg) or [])], [short(x, 20) for x in (got2 or [])]))
                 # the marker still designates the failed operation: the NEXT step must then be that operation again, executed on the stack
                 # the tool now shows (checked for plain sessions and operations without conditional / alt-stack / signature state)
                 if (self.s["kind"] == "plain" and mk["kind"] == "op" and not mk["data"] and mk["code"] > 0x60 and mk["code"] not in (COND_CODES | ALT_CODES | SIG_CODES | {0xab})
-                        and i + 2 < len(t.segs)):
+                        and tool_ok is not None):
                     cur = parse_stack(kseg)
-                    sseg2, kseg2 = t.segs[i], t.segs[i + 2]
                     if cur is not None:
                         rr = self.ref.run(self.s["ref"]["sv"], self.s["ref"]["flags"], "%02x" % mk["code"], cur)
                         ref_ok = (not rr.get("refused")) and rr["ok"]
                         self.st["after_failure_checks"] = self.st.get("after_failure_checks", 0) + 1
-                        if sseg2 == "":
-                            msg2 = t.next_msg()
-                            tool_ok = False
-                        else:
-                            tool_ok, msg2 = True, None
-                        got2 = parse_stack(kseg2)
                         if tool_ok != ref_ok or (tool_ok and got2 != rr["stack"]):
                             self.v("marker-not-next-operation:after-failed-step:%s" % self.cls,
                                    "step %d (%s) failed with %r and the marker stays on it, but the following step %s; executing the marked operation on the shown stack %s %s"
